@@ -320,3 +320,12 @@ Definition conv_check (src : list (order * N)) (prefs : list ballot) (mult : lis
   && forallb (fun b => lenN b =? k) prefs
   && existsb (assignment_ok prefs mult (map snd src))
              (choices (map (fun om => filter (partition_check (fst om)) prefs) src)).
+
+(* no non-empty category after an empty one: the empty categories of a ballot are trailing (padding) *)
+Fixpoint all_empty (b : ballot) : bool :=
+  match b with [] => true | c :: b' => match c with [] => all_empty b' | _ :: _ => false end end.
+Fixpoint trailing_ok (b : ballot) : bool :=
+  match b with
+  | [] => true
+  | c :: b' => match c with [] => all_empty b' | _ :: _ => trailing_ok b' end
+  end.
